@@ -66,6 +66,26 @@ CLAIMS = {
         note="Go's UTF-8 range semantics are modelled and validated by the tie, not proved from the runtime's source",
         technique="Lean 4 proof + differential correspondence",
         engine="lean-model + t1-behaviour", ref="DESIGN.md §6 C17"),
+    "C11": dict(
+        text="Lean theorems about the name table as a state machine over abstract types and an arbitrary assignability relation: an invariant (names unique, no two entries with identical type lists, later entries never assignable to earlier ones, generated ⊆ names) holds in every reachable state; freshly minted names avoid reserved and bound names and the Go candidate loop terminates; without flags registration fails exactly on a conflict or duplicate (defined on the call list alone); -autoname alone / -dedup alone / both behave as stated; the 'unreachable' panic is unreachable; on success every call's final name is bound to exactly its argument types and each plugin has one name per type list. Tied in-process (build tag verif) by 94k operation lines on the real typesMap vs the model, and black-box by all assignments of <=3 calls x names x types x plugins x 4 flag combinations on the real binary (exit status, error class, rewritten call names, callee parameter types, one function per key).",
+        note="EqIsIdentityOn (pairwise non-assignable argument types) is the property's own domain restriction for fail_iff_clash; resolve_sound_general covers the rest",
+        technique="Lean 4 proof (inductive invariant over operation sequences) + in-process state-machine correspondence + exhaustive black-box",
+        engine="lean-model + t3-hooks + blackbox", ref="DESIGN.md §6 C11"),
+    "C12": dict(
+        text="Lean theorems: for pairwise distinct prefixes any result meeting sort.Slice's contract is the unique (length desc, string desc) order, hence independent of registration order; the first match has the longest matching prefix; under a consistent prefix change with freshness the name table and the whole registration loop commute with the renaming (global -prefix: dispatch equivalence is a theorem; the 33 default prefixes are prefix-free, checked against main.go's table on every run); names of different plugins are disjoint for prefix-free prefix sets, and the cross-plugin capture under overrides is refuted by a decided witness (known finding F13, replayed on every run). Tied by sortPlugins/dispatch lines in-process and by default-vs-renamed runs of the real binary (textual equality after renaming for -prefix, canonical equality for overrides, handler identity under nested prefixes).",
+        note="textual equality of whole generated files is carried by the black-box tie, not proved; flag parsing trusted",
+        technique="Lean 4 proof (equivariance under renaming, canonical sort) + in-process and renamed-run differential",
+        engine="lean-model + t3-hooks + blackbox", ref="DESIGN.md §6 C12"),
+    "C15": dict(
+        text="Lean theorems about the signature surgery (currySig/uncurrySig/flipSig/applySig/renaming) and the emitted wrapper as a term with named binding and shadowing, evaluated against a logging f: for every valid signature the wrapper calls f exactly once with every argument in its position and returns its results; uncurry of curry is f; tuple yields its arguments; the generator's renaming yields distinct usable names. One model bit per repaired defect is probed on the real tool each run, with theorems for both settings and decided witnesses for the unrepaired ones. Tied per signature class (336 small packages): predicted compilability vs go build, and behaviour ops (results + call log) vs the model.",
+        note="remaining known finding F6b (uncurry merges clashing outer/inner names) is the exact side condition of uncurry_spec_partial",
+        technique="Lean 4 proof (term semantics with binding) + per-signature differential correspondence",
+        engine="lean-model + t1-behaviour", ref="DESIGN.md §6 C15"),
+    "C16": dict(
+        text="Lean theorems: compose (for every number of stages and failing position, by induction on the stage list), the error forms of fmap and join, traverse and toerror evaluate their stages left to right, each at most once, stop at the first failure returning exactly that error and zero results (nil slice for traverse), and equal sequential composition when nothing fails; zero-value text is well-typed for every result type. Tied by chains of 2..4 stages x result arities x every failing stage x two error objects, traverse over every length/failing index, with instrumented stages (results, error identity, call log) and predicted compilability per package.",
+        note="join/bind pass f's own results through when f itself fails (return f()), as the emitted code does; recorded as an assumption of the spec",
+        technique="Lean 4 proof (induction over the stage list with call logs) + differential correspondence",
+        engine="lean-model + t1-behaviour", ref="DESIGN.md §6 C16"),
 }
 
 OTHER = {
